@@ -302,7 +302,7 @@ def rule_fanout(ctx):
     n += 1
     # guards: the touched loop runs whenever touched is non-empty; the mempool loop whenever height changed and statuses exist
     for lp, need, label in ((tl, {tparam}, 'touched loop guard'), (ml, {hparam, 'self.mempool_statuses'}, 'mempool loop guard')):
-        conds = pr.control_conditions(lp, f.node)
+        conds = pr.guard_conditions(lp, f.node)        # `if not X: return` guards read as "under X"
         ok = True
         for t, b, _p in conds:
             if not b:
@@ -323,15 +323,15 @@ def rule_fanout(ctx):
         if ok:
             hx = norm(lp.target.elts[0]) if isinstance(lp.target, ast.Tuple) else norm(lp.target)
             ok = norm(sas[0].args[0]) == hx
-            conds_s = [norm(t) for t, b, _p in pr.control_conditions(q.stmt(sas[0]), lp)]
-            conds_r = [norm(t) for t, b, _p in pr.control_conditions(recs[0], lp)]
+            conds_s = [norm(t) if b else f'not ({norm(t)})' for t, b, _p in pr.guard_conditions(q.stmt(sas[0]), lp)]
+            conds_r = [norm(t) if b else f'not ({norm(t)})' for t, b, _p in pr.guard_conditions(recs[0], lp)]
             alias_defs = [s for s in lp.body if isinstance(s, ast.Assign) and norm(s.value) == f'self.hashX_subs.get({hx})']
             av = norm(alias_defs[0].targets[0]) if alias_defs else None
             ok = ok and av is not None and conds_s == [av] and norm(recs[0].targets[0].slice) == av
             if cond_extra:
                 old = norm(lp.target.elts[1]) if isinstance(lp.target, ast.Tuple) else None
                 stv = norm(q.stmt(sas[0]).targets[0])
-                ok = ok and len(conds_r) == 2 and conds_r[0] in (f'{stv} != {old}', f'{old} != {stv}') and conds_r[1] == av
+                ok = ok and len(conds_r) == 2 and conds_r[0] in (f'not ({stv} == {old})', f'not ({old} == {stv})') and conds_r[1] == av
             else:
                 ok = ok and conds_r == [av]
         ctx.check(ok, 'C07.FANOUT', ctx.key(f, lp, f'{label} statuses recomputed'),
